@@ -39,12 +39,13 @@ func GenerateRego(profileText string, debug bool, eventChan *chan e.Event) (*gen
 	return &module, err
 }
 
-// unsafeBuiltinsMap When updating to 0.35 ast.NetLookupIPAddr will be available and needs to be added and blocked too
+// unsafeBuiltinsMap built-ins that reach the network, the host process or the compiler
 var unsafeBuiltinsMap = map[string]struct{}{
 	ast.HTTPSend.Name:        {},
 	ast.WalkBuiltin.Name:     {},
 	ast.OPARuntime.Name:      {},
 	ast.RegoParseModule.Name: {},
+	ast.NetLookupIPAddr.Name: {},
 }
 
 func CompileRego(regoUnit *generator.RegoUnit, eventChan *chan e.Event) (*rego.PreparedEvalQuery, error) {
